@@ -212,6 +212,10 @@ func (rn *Runner) Run() {
 			return
 		}
 		_ = sc2.Hello("client.test")
+		if sc.Dsn != "" && sc.Dsn != "off" { // DSN options set on the smtp.Client: MAIL / RCPT take the format with parameters
+			sc2.SetDSNMailReturnOption("FULL")
+			sc2.SetDSNRcptNotifyOption("FAILURE")
+		}
 		if sc.Setter == "From" {
 			merr := sc2.Mail("sender@from.test" + inj)
 			r.Emit("ret", "op", "Mail", "err", merr != nil, "text", clip(merr))
